@@ -214,6 +214,7 @@ func caseRcptRoot(c *vf.Ctx, i, K int) {
 		if !bs.present && bytes.Equal(mkReceipts(l2, bs, vs).MerkleRoot(), root0) {
 			a.count("rcptroot.duplicate_last_collides")
 			noteDup("receipts-root", i, n, root0)
+			a.viol("rcptroot/list-plus-copy-of-its-last-element-has-the-same-root", fmt.Sprintf("the receipts root of a list of %d receipts equals the root of the same list with its last receipt appended once more: %x", n, root0))
 		} else {
 			a.count("rcptroot.duplicate_last_differs_or_bloom_leaf_last")
 		}
